@@ -221,6 +221,14 @@ def other_cases(tier, Ts, bound=1):
                                 (cid, T, b, extr, strat, 1 + (k % 2), 2 + (k % 2), fmg, tf, k % 2))
                         cases.append(dict(id=cid, line=line, op="solver", T=T, group=cid.rsplit("_T", 1)[0]))
                     k += 1
+    # uncached give paths (coefficients / geometry recomputed inside the parallel regions, uncached rhs discretisation)
+    for ci, (cc, cg) in enumerate([(0, 0), (0, 1), (1, 0)]):
+        for T in [t for t in Ts if t in (2, 3, 4)]:
+            cid = "sol_uncached%d%d_T%d" % (cc, cg, T)
+            line = ("id=%s op=solver T=%d bound=%d perms=rev audit=0 nr_exp=4 ntheta_exp=5 extr=%d strat=1 maxit=2 geom=%d prob=2 alpha=3 beta=1 "
+                    "kappa=0.3 delta=%s fmg=%d fmg_it=1 tfactor=1.0 dirbc=%d cc=%d cg=%d" %
+                    (cid, T, bound if T == 2 else 0, 1 if ci else 0, 1 + (ci % 2), "0.2" if ci % 2 == 0 else "1.4", ci % 2, ci % 2, cc, cg))
+            cases.append(dict(id=cid, line=line, op="solver", T=T, group="sol_uncached%d%d" % (cc, cg)))
     return cases
 
 
